@@ -25,7 +25,7 @@ def main(a):
         mdir = os.path.join(seeded, mid)
         meta = json.load(open(os.path.join(mdir, "meta.json")))
         props = [meta["breaks_property"]] + [p for p in meta.get("also_run", []) if p != meta["breaks_property"]]
-        scratch = tempfile.mkdtemp(prefix="simkit-sens-", dir="/dev/shm")
+        scratch = tempfile.mkdtemp(prefix="sens-repo-", dir="/dev/shm")
         try:
             subprocess.run(f"git -C {repo} archive HEAD | tar -x -C {scratch}", shell=True, check=True)
             r = subprocess.run(["git", "apply", os.path.join(mdir, "patch.diff")], cwd=scratch, capture_output=True, text=True)
@@ -46,6 +46,9 @@ def main(a):
                 sigs = sorted({ln.split("signature=")[1].split()[0] for ln in rr.stdout.splitlines() if "signature=" in ln}
                               | {ln.split("sig=")[1].split()[0] for ln in rr.stdout.splitlines() if " sig=" in ln})
                 res[p] = {"exit": rr.returncode, "signatures": sigs[:8], "wall_s": round(time.time() - t0, 1)}
+                if rr.returncode not in (0, 1):
+                    res[p]["harness"] = [ln[:300] for ln in rr.stdout.splitlines() if "HARNESS" in ln][:3]
+                    print(f"   {mid}/{p}: exit {rr.returncode}: {res[p]['harness']}", flush=True)
             detected = [p for p, v in res.items() if v["exit"] == 1]
             report[mid] = {"breaks": meta["breaks_property"], "results": res, "detected_by": detected}
             meta["detected_by"] = [f"{p} quick tier: {', '.join(res[p]['signatures'][:3])}" for p in detected]
